@@ -477,7 +477,10 @@ def run(ctx):
     import props.C07_span_tag as ST_
     ST_.prove_span_tag(ctx)
     import props.C07_write as WS
-    WS.prove_write_skeleton(ctx)          # (unused regions are removed only after the last language has been written)          # (a span with a layout carries region=<its own region>, whatever encloses it)
+    WS.prove_write_skeleton(ctx)          # (unused regions are removed only after the last language has been written)
+    # a region that already fits the safe area keeps its extent on the way through DFXP (contract shared with C13)
+    import props.C13 as C13
+    P("geometry.Layout.fit_to_screen", C13.fit_to_screen, functions=[Layout.fit_to_screen])          # (a span with a layout carries region=<its own region>, whatever encloses it)
     # the language-level layout the cues fall back to is the layout of the language that is written (named or first),
     # set before the first caption is converted - whatever an earlier write left on the writer
     import props.C14 as C14
